@@ -600,8 +600,15 @@ package url
 //@   ensures (url != nil && stateOverride == StateFragment) ==> sameButFragment(url)   [C05]
 //@   ensures (url != nil && stateOverride == StateQuery) ==> sameButQuery(url)   [C05]
 //@   ensures (url != nil && stateOverride == StatePort) ==> sameButPort(url)   [C05]
+//@   ensures (url != nil && (stateOverride == StateFragment || stateOverride == StateQuery) && !p.opts.failOnValidationError) ==> result1 == nil   [C05]
+//@   ensures (url != nil && stateOverride == StateFragment && result1 == nil && p.opts.encodingOverride == nil) ==>
+//@           *url.fragment == encWith(fragSet(url), old(cleaned(urlOrRef)))   [C05 hash-value]
+//@   ensures (url != nil && stateOverride == StateQuery && result1 == nil && p.opts.encodingOverride == nil) ==>
+//@           *url.query == encWith(querySet(url), old(cleaned(urlOrRef)))   [C05 search-value]
 //@   ensures url != nil ==> url.searchParams == old(url.searchParams)   [C12]
+//@   ensures url != nil ==> url.parser == p
 //@   ensures (url != nil && stateOverride == StateQuery) ==> url.query != nil
+//@   ensures (url != nil && stateOverride == StateFragment) ==> url.fragment != nil
 //@   loop 1 modifies url.*, url.path.*, url.path.p[..], url.validationErrors[..], base.path.*, base.path.p[..], input.pointer, input.eof, bufv(buffer)
 //@   loop 1 invariant url != nil && url == pre(url) && url.parser == p
 //@   loop 1 invariant old(url) == nil ==> fresh(url)
@@ -610,6 +617,12 @@ package url
 //@   loop 1 invariant old(url) == nil ==> fresh(url.path)
 //@   loop 1 invariant old(url) != nil ==> (url.path == old(url.path) && (url.path.opaque ==> len(url.path.p) >= 1))
 //@   loop 1 invariant cur(input) && !input.eof && fresh(input) && input == pre(input)
+//@   loop 1 invariant url.inputUrl == pre(url.inputUrl) && (old(url) != nil ==> url.inputUrl == old(cleaned(urlOrRef)))
+//@   loop 1 invariant content(input.runes) == runesOf(url.inputUrl) && off(input.runes) == 0 && input.length == runeCount(url.inputUrl) && input.runes == pre(input.runes)
+//@   loop 1 invariant (stateOverride == StateFragment && p.opts.encodingOverride == nil) ==> bufv(buffer) == specEncStr(runesOf(url.inputUrl), input.pointer + 1,
+//@            runeCount(url.inputUrl), bsBits(fragSet(url).bs), fragSet(url).allBelow, fragSet(url) == nil, false)
+//@   loop 1 invariant (stateOverride == StateQuery && p.opts.encodingOverride == nil) ==> bufv(buffer) == specEncStr(runesOf(url.inputUrl), input.pointer + 1,
+//@            runeCount(url.inputUrl), bsBits(querySet(url).bs), querySet(url).allBelow, querySet(url) == nil, false)
 //@   loop 1 invariant (baseUrl == nil) == (base == nil) && base == pre(base)
 //@   loop 1 invariant base != nil ==> (fresh(base) && base.path != nil && fresh(base.path) && base.path == pre(base.path))
 //@   loop 1 invariant base != nil ==> (base.path.p == nil || fresh(base.path.p))
@@ -640,6 +653,7 @@ package url
 //@            || state == StateFileHost || state == StatePort || state == StatePathStart || state == StatePath || state == StateQuery || state == StateFragment)
 //@   loop 1 invariant (state == StateRelative || state == StateRelativeSlash || state == StateSpecialRelativeOrAuthority) ==> base != nil
 //@   loop 1 invariant state == StateQuery ==> url.query != nil
+//@   loop 1 invariant stateOverride == StateFragment ==> url.fragment != nil
 //@   loop 1 invariant (state == StateQuery && !stateOverridden) ==> freshL(url.query)
 //@   loop 1 invariant state == StateAuthority ==> runeCount(bufv(buffer)) <= input.pointer + 1
 //@   loop 1 invariant (state == StateSchemeStart || state == StateNoScheme || state == StateSpecialRelativeOrAuthority || state == StatePathOrAuthority
@@ -757,12 +771,16 @@ package url
 //@   ensures wf(u)   [C02,C04]
 //@   ensures old(shapeP(u)) ==> shapeP(u)   [C04,C05 shape-preserved-by-setters]
 //@   ensures (u.host == nil || *u.host == "" || u.scheme == "file") ==> u.username == old(u.username)   [C05]
+//@   ensures (!(u.host == nil || *u.host == "" || u.scheme == "file") && u.parser.opts.encodingOverride == nil) ==> u.username == specEncStr(runesOf(username),
+//@           runeCount(username), runeCount(username), bsBits(UserInfoPercentEncodeSet.bs), UserInfoPercentEncodeSet.allBelow, false, u.parser.opts.percentEncodeSinglePercentSign)   [C05 username-value]
 //@ func (*Url).SetPassword
 //@   requires wf(u)
 //@   modifies u.password
 //@   ensures wf(u)   [C02,C04]
 //@   ensures old(shapeP(u)) ==> shapeP(u)   [C04,C05 shape-preserved-by-setters]
 //@   ensures (u.host == nil || *u.host == "" || u.scheme == "file") ==> u.password == old(u.password)   [C05]
+//@   ensures (!(u.host == nil || *u.host == "" || u.scheme == "file") && u.parser.opts.encodingOverride == nil) ==> u.password == specEncStr(runesOf(password),
+//@           runeCount(password), runeCount(password), bsBits(UserInfoPercentEncodeSet.bs), UserInfoPercentEncodeSet.allBelow, false, u.parser.opts.percentEncodeSinglePercentSign)   [C05 password-value]
 //@ func (*Url).SetHost
 //@   requires wf(u)
 //@   modifies u.*, u.path.*, u.path.p[..], u.validationErrors[..]
@@ -800,6 +818,8 @@ package url
 //@   ensures old(shapeP(u)) ==> shapeP(u)   [C04,C05 shape-preserved-by-setters]
 //@   ensures keptArrays(u)
 //@   ensures fragment == "" ==> u.fragment == nil   [C05]
+//@   ensures (fragment != "" && !u.parser.opts.failOnValidationError && u.parser.opts.encodingOverride == nil) ==> (u.fragment != nil
+//@           && *u.fragment == encWith(fragSet(u), old(cleaned(specHasPrefix(fragment, "#") ? fragment[1:len(fragment)] : fragment))))   [C05 hash-value]
 //@   ensures (fragment != "" || u.query != nil || !u.path.opaque) ==> sameButFragment(u)   [C05]
 //@   ensures sameButFragmentPath(u)   [C05]
 //@   ensures (fragment == "" && u.query == nil && u.path.opaque) ==> u.path.p[0] == old(u.path.p[0])[0:specTrimRHi(old(u.path.p[0]), " ")]   [C05,C03 strip-only-when-both-null]
@@ -810,6 +830,8 @@ package url
 //@   ensures old(shapeP(u)) ==> shapeP(u)   [C04,C05 shape-preserved-by-setters]
 //@   ensures keptArrays(u)
 //@   ensures query == "" ==> u.query == nil   [C05,C12]
+//@   ensures (query != "" && !u.parser.opts.failOnValidationError && u.parser.opts.encodingOverride == nil) ==> (u.query != nil
+//@           && *u.query == encWith(querySet(u), old(cleaned(specHasPrefix(query, "?") ? query[1:len(query)] : query))))   [C05 search-value]
 //@   ensures (query != "" || u.fragment != nil || !u.path.opaque) ==> pathContentSame(u)   [C05 strip-only-when-both-null]
 //@   ensures (query == "" && u.fragment == nil && u.path.opaque) ==> u.path.p[0] == old(u.path.p[0])[0:specTrimRHi(old(u.path.p[0]), " ")]   [C05,C03 strip-only-when-both-null]
 //@   ensures u.scheme == old(u.scheme) && u.username == old(u.username) && u.password == old(u.password) && u.host == old(u.host)
